@@ -53,6 +53,13 @@ pub struct Case {
     pub spurious: bool,
     pub write_script: Vec<WStep>,
     pub vectored: bool,
+    /// the reader abandons a read that is still pending after this many polls (as a timeout
+    /// would) and performs no further reads
+    #[serde(default)]
+    pub cancel_after: Option<u8>,
+    /// finish with `Request::close` once every writer is done and dropped
+    #[serde(default)]
+    pub close_at_end: bool,
 }
 
 /// Content of a write: first byte identifies (writer, op) so that records map back uniquely.
@@ -96,6 +103,9 @@ pub fn test(c: &Case) -> TestResult {
         }
     }
     in_recs.push(Rec::new(wire::T_STDIN, c.id, vec![1, 2, 3], 0));
+    in_recs.push(Rec::new(wire::T_STDIN, c.id, gen::gen_bytes(13, 77), 3));
+    let stdin: Vec<u8> = [vec![1, 2, 3], gen::gen_bytes(13, 77)].concat();
+    let mut got = 0usize;
     let input = wire::encode_all(&in_recs);
     let e1: Vec<_> = model::stream_model(c.id, 1, &in_recs, 3).replies;
     // Large write volumes scale the accepted sizes so that a case stays cheap.
@@ -125,6 +135,8 @@ pub fn test(c: &Case) -> TestResult {
     let n_writers = actors.len();
     let reader_flag = FlagWaker::new(true);
     let mut reads_done = 0usize;
+    let mut reader_pendings = 0usize;
+    let mut reader_cancelled = false;
     let mut reader_finished = c.reads.is_empty();
     // completed writes: (writer, op, type, bytes accepted)
     let mut completed: Vec<(usize, usize, u8, Vec<u8>)> = Vec::new();
@@ -147,7 +159,7 @@ pub fn test(c: &Case) -> TestResult {
             let k = (pick + off) % n_actors;
             let unfinished = if k == n_writers { !reader_finished } else { actors[k].next < actors[k].ops.len() };
             let woken = if k == n_writers { reader_flag.is_woken() } else { actors[k].flag.is_woken() };
-            if unfinished && (woken || (c.spurious && off == 0)) {
+            if unfinished && (woken || (c.spurious && !reader_cancelled && off == 0)) {
                 chosen = Some(k);
                 break;
             }
@@ -155,6 +167,11 @@ pub fn test(c: &Case) -> TestResult {
         let Some(k) = chosen else {
             idle_rounds += 1;
             if idle_rounds > n_actors + 1 {
+                if reader_cancelled {
+                    // the abandoned read keeps the request's output lock (it is released when the
+                    // request is polled again or closed): the writers wait for it legitimately
+                    break;
+                }
                 let blocked: Vec<usize> = (0..n_writers).filter(|&i| actors[i].next < actors[i].ops.len()).collect();
                 vfail!("c10-lost-wakeup", "no actor is runnable but writers {blocked:?} (reader finished: {reader_finished}) still have work: a task waiting for the output lock was never woken");
             }
@@ -169,7 +186,12 @@ pub fn test(c: &Case) -> TestResult {
             let cap = c.reads[reads_done % c.reads.len()] as usize;
             let mut buf = vec![0u8; cap];
             match Pin::new(&mut req).poll_read(&mut cx, &mut buf) {
-                Poll::Ready(Ok(_)) => {
+                Poll::Ready(Ok(n)) => {
+                    // C09 in the multi-task setting: exactly the stream's bytes, in order, once
+                    vensure!(n <= cap, "c09-read-count", "poll_read into {cap} bytes returned {n}");
+                    vensure!(n > 0 || cap == 0, "c09-early-eof", "poll_read returned 0 into a {cap}-byte buffer although the stream has not ended ({got} bytes delivered)");
+                    vensure!(got + n <= stdin.len() && buf[..n] == stdin[got..got + n], "c09-data", "poll_read delivered {:02x?} after {got} stream bytes, the stream continues with {:02x?}", &buf[..n], &stdin[got.min(stdin.len())..(got + n).min(stdin.len())]);
+                    got += n;
                     std::task::Wake::wake_by_ref(&reader_flag); // the task goes on with its next operation
                     reads_done += 1;
                     if reads_done >= c.reads.len() {
@@ -178,10 +200,15 @@ pub fn test(c: &Case) -> TestResult {
                 },
                 Poll::Ready(Err(e)) => vfail!("c10-reader-error", "Request::poll_read failed: {e}"),
                 Poll::Pending => {
+                    reader_pendings += 1;
                     // waiting for input that will not come (no more client data) ends the reader
                     let w = world.lock().unwrap();
                     if w.read_pos >= w.client.len() && w.reader_waker.is_some() {
                         reader_finished = true;
+                    }
+                    if c.cancel_after.is_some_and(|k| reader_pendings > k as usize) {
+                        reader_finished = true; // the read is abandoned
+                        reader_cancelled = true;
                     }
                 },
             }
@@ -245,6 +272,27 @@ pub fn test(c: &Case) -> TestResult {
         validated += used;
     }
     drop(actors);
+    // ---- optionally end the request the regular way: pending replies, then the epilogue
+    let mut closed = false;
+    if c.close_at_end || reader_cancelled {
+        let flag = FlagWaker::new(true);
+        let waker = Waker::from(flag.clone());
+        let mut cx = Context::from_waker(&waker);
+        let mut fut = Box::pin(req.close(fastcgi_server::ExitStatus::SUCCESS));
+        let mut polls = 0;
+        loop {
+            polls += 1;
+            vensure!(polls < 200_000, "c10-no-progress", "Request::close did not finish");
+            vensure!(flag.take(), "c10-lost-wakeup", "Request::close is pending without a wake-up");
+            if let Poll::Ready(r) = std::future::Future::poll(fut.as_mut(), &mut cx) {
+                vensure!(r.is_ok(), "c10-close-error", "Request::close failed on a fault-free transport: {:?}", r.err().map(|e| e.kind()));
+                break;
+            }
+        }
+        closed = true;
+    } else {
+        drop(req);
+    }
 
     // ---- final accounting on the byte log
     let w = world.lock().unwrap();
@@ -257,7 +305,10 @@ pub fn test(c: &Case) -> TestResult {
         match wire::classify_out(r).map_err(|e| Fail::new("c10-log-malformed", e))? {
             wire::Reply::Stream { ty, id, payload } => {
                 vensure!(id == c.id, "c10-record-id", "output record at {} carries request id {id}, expected {}", r.at, c.id);
-                vensure!(!payload.is_empty(), "c10-empty-record", "empty output record at {} (would end the stream)", r.at);
+                if payload.is_empty() {
+                    vensure!(closed, "c10-empty-record", "empty output record at {} (would end the stream)", r.at);
+                    continue;
+                }
                 vensure!(r.pad.len() < 8 && (payload.len() + r.pad.len()) % 8 == 0, "c10-padding", "record at {}: content {} padding {}", r.at, payload.len(), r.pad.len());
                 let (wi, oi) = ((payload[0] >> 5) as usize, (payload[0] & 0x1f) as usize);
                 let Some(ci) = completed.iter().position(|(a, b, _, _)| *a == wi && *b == oi) else {
@@ -293,6 +344,17 @@ pub fn test(c: &Case) -> TestResult {
             vensure!(have >= owed, "c08-owed-at-park", "the request's reader waits for client input (after {read_pos} bytes = {k} records) while only {have} of {owed} owed replies are on the log ({log_len} bytes written)");
         }
     }
+    if closed {
+        // the log ends with the end-of-request sequence; everything before obeys the rules above
+        let n = recs.len();
+        let tail_ok = n >= 3
+            && recs[n - 3].ty == wire::T_STDOUT && recs[n - 3].payload.is_empty()
+            && recs[n - 2].ty == wire::T_STDERR && recs[n - 2].payload.is_empty()
+            && matches!(mgmt.last(), Some(wire::Reply::End { id, proto: 0, app: 0 }) if *id == c.id)
+            && recs[n - 1].ty == wire::T_END;
+        vensure!(tail_ok, "c17-epilogue", "after close() the log does not end with [stdout end, stderr end, EndRequest(id {})]; last records: {:?}", c.id, recs[n.saturating_sub(3)..].iter().map(|r| (r.ty, r.id, r.payload.len())).collect::<Vec<_>>());
+        mgmt.pop();
+    }
     vensure!(seen.iter().all(|&s| s), "c10-missing-record", "{} completed write(s) have no record on the log", seen.iter().filter(|&&s| !s).count());
     model::match_replies_prefix(&e1, &mgmt).map_err(|e| Fail::new("c10-mgmt-replies", e))?;
     Ok(Outcome::new(n_writers >= 2 && contended_mid_record)
@@ -301,6 +363,8 @@ pub fn test(c: &Case) -> TestResult {
         .label_if(w.saw_write_pending, "write-pending")
         .label_if(w.short_writes > 0, "short-writes")
         .label_if(c.vectored, "vectored")
+        .label_if(reader_cancelled, "read-abandoned")
+        .label_if(closed, "closed-at-end")
         .label_if(completed.iter().any(|c| c.3.len() == 65535), "65535-byte-record")
         .label_if(c.writers.iter().any(|w| w.clone_of.is_some()), "cloned-writer"))
 }
@@ -326,6 +390,8 @@ pub fn case_strategy() -> BoxedStrategy<Case> {
         any::<bool>(),
     )
         .prop_map(|(id, ws, mgmt, reads, order, spurious, write_script, vectored)| Case {
+            cancel_after: if order.len() % 3 == 0 { Some((order[0] % 3) as u8) } else { None },
+            close_at_end: order.len() % 2 == 0,
             id,
             writers: ws.into_iter().map(|(stderr, clone_of, ops)| WriterSpec { stderr, clone_of, ops }).collect(),
             mgmt,
@@ -350,8 +416,8 @@ pub fn property() -> Property {
         subs: vec![prop_sub(
             "writers",
             "1..3 StreamWriters (stdout, stderr, clones) with queues of writes (0,1,7,8,9,300,65535,65536,70000,... bytes) and flushes, polled in a generated order, plus the request's own poll_read flushing management replies through the same lock; transports splitting writes anywhere (inside the header, at the header/payload seam, inside padding) or Pending; the log must decode after every step, and at the end every accepted write is exactly one record of the right type/id with exactly its bytes, padding rule, per-writer order; non-trivial = >=2 writers and a writer was blocked on the lock while the log ended mid-record; distinct = hash of the case",
-            40_000,
-            1_000_000,
+            300_000,
+            6_000_000,
             |_| case_strategy(),
             test,
         )],
